@@ -232,16 +232,18 @@ def eval_shards(name, header, items, defn, nshards=None, timeout=900):
 
 
 def print_assumptions(theorems, imports):
+    """theorems: list of names, or of (name, import line) pairs (then `imports` is ignored)"""
     """returns {theorem: text}, text being 'Closed under the global context' or the axiom list;
     missing theorems map to None"""
     d = run_dir()
     res = {}
     path = os.path.join(d, "assum_%d.v" % os.getpid())
 
-    def one(thm):
+    def one(item):
+        thm, imp = item if isinstance(item, tuple) else (item, imports)
         p = os.path.join(d, "assum_%d_%s.v" % (os.getpid(), re.sub(r"\W", "_", thm)))
         with open(p, "w") as f:
-            f.write(imports + "\nPrint Assumptions %s.\n" % thm)
+            f.write(imp + "\nPrint Assumptions %s.\n" % thm)
         rc, out, err = coqc_file(p, 300)
         for ext in (".v", ".vo", ".vok", ".vos", ".glob"):
             with contextlib.suppress(OSError):
